@@ -130,7 +130,11 @@ BLOCKS = {
                          "len(edge_neighbors_ptr) == len(edge_dofs) + 1",
                          "forall(0, len(edge_dofs), lambda x: 0 <= edge_neighbors_ptr[x] and edge_neighbors_ptr[x] <= edge_neighbors_ptr[x + 1] and edge_neighbors_ptr[x + 1] <= len(edge_neighbors))",
                          "forall(0, len(edge_neighbors), lambda i: 0 <= edge_neighbors[i] and edge_neighbors[i] < N)",
-                         "forall(0, len(edge_dofs), lambda x: edge_dofs[x] >= -1 and edge_dofs[x] < dof_count)"],
+                         "forall(0, len(edge_dofs), lambda x: edge_dofs[x] >= -1 and edge_dofs[x] < dof_count)",
+                         # loop invariant of the enclosing loops (holds initially: all -1, counter 0; preserved: see the last three ensures): the dof numbers handed out
+                         # so far are exactly 0 .. dof_count - 1, each on one edge
+                         "forall(0, len(edge_dofs), lambda x: forall(0, x, lambda y: edge_dofs[x] == -1 or edge_dofs[x] != edge_dofs[y]))",
+                         "forall(0, dof_count, lambda d: exists(0, len(edge_dofs), lambda x: edge_dofs[x] == d))"],
             "loops": {1: {"invariant": [
                 "forall(edge_neighbors_ptr[edge_index], _ka, lambda i: support[edge_neighbors[i]] != 0)",
                 "forall(0, N, lambda e: support[e] == old_support[e] or (support[e] != 0 and exists(edge_neighbors_ptr[edge_index], _ka, lambda i: edge_neighbors[i] == e)))",
@@ -148,6 +152,10 @@ BLOCKS = {
                 "implies((old_edge_dofs[element_edges[local_index, element]] == -1 and (exists(edge_neighbors_ptr[element_edges[local_index, element]], edge_neighbors_ptr[element_edges[local_index, element] + 1], lambda a: old_support[edge_neighbors[a]] != 0) and not exists(edge_neighbors_ptr[element_edges[local_index, element]], edge_neighbors_ptr[element_edges[local_index, element] + 1], lambda a: old_support[edge_neighbors[a]] != 0 and exists(a + 1, edge_neighbors_ptr[element_edges[local_index, element] + 1], lambda b: old_support[edge_neighbors[b]] != 0))) and include_boundary_dofs != 0 and truncate_at_segment_edge == 0), forall(edge_neighbors_ptr[element_edges[local_index, element]], edge_neighbors_ptr[element_edges[local_index, element] + 1], lambda i: result_0[edge_neighbors[i]] != 0))",
                 "implies((old_edge_dofs[element_edges[local_index, element]] == -1 and (exists(edge_neighbors_ptr[element_edges[local_index, element]], edge_neighbors_ptr[element_edges[local_index, element] + 1], lambda a: old_support[edge_neighbors[a]] != 0) and not exists(edge_neighbors_ptr[element_edges[local_index, element]], edge_neighbors_ptr[element_edges[local_index, element] + 1], lambda a: old_support[edge_neighbors[a]] != 0 and exists(a + 1, edge_neighbors_ptr[element_edges[local_index, element] + 1], lambda b: old_support[edge_neighbors[b]] != 0))) and include_boundary_dofs != 0 and truncate_at_segment_edge == 0), forall(0, N, lambda e: result_0[e] == old_support[e] or (result_0[e] != 0 and exists(edge_neighbors_ptr[element_edges[local_index, element]], edge_neighbors_ptr[element_edges[local_index, element] + 1], lambda i: edge_neighbors[i] == e))))",
                 "implies(not (old_edge_dofs[element_edges[local_index, element]] == -1 and (exists(edge_neighbors_ptr[element_edges[local_index, element]], edge_neighbors_ptr[element_edges[local_index, element] + 1], lambda a: old_support[edge_neighbors[a]] != 0) and not exists(edge_neighbors_ptr[element_edges[local_index, element]], edge_neighbors_ptr[element_edges[local_index, element] + 1], lambda a: old_support[edge_neighbors[a]] != 0 and exists(a + 1, edge_neighbors_ptr[element_edges[local_index, element] + 1], lambda b: old_support[edge_neighbors[b]] != 0))) and include_boundary_dofs != 0 and truncate_at_segment_edge == 0), forall(0, N, lambda e: result_0[e] == old_support[e]))",
+                # the numbering invariant is preserved: range, one edge per number, no gaps
+                "forall(0, len(edge_dofs), lambda x: result_1[x] >= -1 and result_1[x] < result_2)",
+                "forall(0, len(edge_dofs), lambda x: forall(0, x, lambda y: result_1[x] == -1 or result_1[x] != result_1[y]))",
+                "forall(0, result_2, lambda d: exists(0, len(edge_dofs), lambda x: result_1[x] == d))",
             ],
         },
     },
